@@ -859,6 +859,8 @@ func (rule *RuleExpression) checkMatrixExpression(expr *String) *ObjectType {
 	if !ok {
 		return NewEmptyObjectType()
 	}
+	// The object type may be shared (e.g. type of 'inputs' context). Copy it since it is modified below
+	matTy = matTy.DeepCopy().(*ObjectType)
 
 	// Consider properties in include section elements since 'include' section adds matrix values
 	incTy, ok := matTy.Props["include"]
@@ -933,7 +935,9 @@ func (rule *RuleExpression) checkMatrix(m *Matrix) *ObjectType {
 				continue
 			}
 			if merged, ok := o.Merge(ty).(*ObjectType); ok {
-				o = merged
+				// Merge may return the given type as it is and the type may be shared (e.g. type of
+				// 'github.event'). Copy it since it is modified by the following elements
+				o = merged.DeepCopy().(*ObjectType)
 			} else {
 				o.Loose()
 			}
